@@ -79,17 +79,29 @@ def run(ck, rng, tier, prop="C01"):
             Qd = Qd - Qd.mean(axis=0)
             Qd, _ = np.linalg.qr(Qd)
             X = (Qd * np.array(([2.0, 8.0, 4.0, 1.0, 3.0])[:m]) + np.array([rng.uniform(-3, 3) for _ in range(m)])).tolist()
+        if c == 8:
+            # two leading eigenvalues a hair apart (ratio 1 - 2e-4): the first component needs of the order of 1e4 inner iterations,
+            # the others follow in the same call; all components requested, one thread
+            n, m, scaling, kind = 5, 3, 0, "general"
+            Qd, _ = np.linalg.qr(np.array([[rng.gauss(0, 1) for _ in range(m)] for _ in range(n)]))
+            Qd = Qd - Qd.mean(axis=0)
+            Qd, _ = np.linalg.qr(Qd)
+            Vd, _ = np.linalg.qr(np.array([[rng.gauss(0, 1) for _ in range(m)] for _ in range(m)]))
+            X = ((Qd * np.array([1.0, math.sqrt(1 - 2e-4), 0.3])) @ Vd.T + np.array([rng.uniform(-3, 3) for _ in range(m)])).tolist()
+            ck.count("leading eigenvalues a hair apart")
         from props import c02
         Xc = c02.preprocess(np.array(X), scaling)
         rank = int(np.linalg.matrix_rank(Xc, tol=1e-8 * max(1.0, np.abs(Xc).max())))
         if rank < 1:
             continue
         npc = rng.choice((1, rank, rank, rng.randint(1, rank)))
-        if c < 4 or c == 7:
+        if c < 4 or c in (7, 8):
             npc = rank
         nproc = rng.choice((1, 1, 2, 3, 5, 8, 16))
         if c in (4, 5):
             nproc = (2, 4)[c - 4]
+        if c == 8:
+            nproc = 1
         New = [[rng.gauss(0, 1) for _ in range(m)] for _ in range(2)]
         lines.append("pca %s %s %d %d %d" % (vf.fmt_mat(X, m), vf.fmt_mat(New, m), scaling, npc, nproc))
         meta.append((X, New, scaling, npc, nproc, rank, kind))
